@@ -809,6 +809,7 @@ def b5_b6(run: Run, prog, cy, cfuncs, shapes, handoffs, sites):
                 "where": f"{cf.relpath}:{a.line}", "access": a.expr,
                 "offset": str(a.offset), "upper_bound": str(hi), "size": str(size)})
             if ok:
+                _b8_layout(run, h, cf, a, dims, arr)
                 continue
             if used_index_params:
                 p_ = sorted(used_index_params)[0]
@@ -831,6 +832,39 @@ def b5_b6(run: Run, prog, cy, cfuncs, shapes, handoffs, sites):
                     f"provably inside the buffer for all sizes (e.g. when "
                     f"{_witness(size, hi)})")
     run.floor("distinct C memory accesses analysed", n_acc, 60, hard=True)
+
+
+def _b8_layout(run, h, cf, a, dims, arr):
+    """Row-major layout: in a 2-D array with rows of dims[1] elements the row
+    index is multiplied by dims[1].  An in-bounds access whose index is
+    multiplied by dims[0] instead (dims[0] != dims[1]) addresses the transposed
+    layout: right size, wrong elements.  That is no violation of C20 (every
+    access stays inside the buffer) - the obligations are collected in
+    `run.layout` and decided by C10 (rule A5), which re-uses this analysis."""
+    if len(dims) != 2 or dims[0] == dims[1] or not all(
+            len(d.t) == 1 and list(d.t.values()) == [1] and len(next(iter(d.t))) == 1
+            for d in dims):
+        return
+    d0, d1 = (next(iter(d.t))[0] for d in dims)
+    if not hasattr(run, "layout"):
+        run.layout = []
+    for key, c in sorted(a.offset.t.items()):
+        idx = [x for x in key if x not in (d0, d1)]
+        ext = [x for x in key if x in (d0, d1)]
+        if len(idx) != 1 or len(ext) != 1:
+            continue
+        ok = ext[0] == d1
+        run.layout.append({
+            "instance": f"{h.cname}:{a.base}:stride@{re.sub(r'[?#][0-9]+', '', idx[0])}",
+            "ok": ok, "file": cf.relpath,
+            "sample": {"where": f"{cf.relpath}:{a.line}", "offset": str(a.offset),
+                       "shape": [d0, d1]},
+            "key": f"{h.cname}/{a.base}/row-stride", "where": f"{cf.relpath}:{a.line}",
+            "message": (
+                f"{h.cname}: `{a.expr}` addresses `{a.base}` at offset {a.offset}, i.e. "
+                f"with rows of {d0} elements, but the array `{arr}` handed over has "
+                f"shape ({d0}, {d1}) - rows of {d1} elements: every access is inside the "
+                f"buffer but reads the transposed layout")})
 
 
 def _guarded_positive(h) -> set:
